@@ -31,7 +31,18 @@ fn definition(items: &[Vec<u8>]) -> [u8; 32] {
     d
 }
 
+/// items whose SHA3-256 has a little-endian word in [p_i, 2^32) for some column i (found by a
+/// search over "setsum-probe-<n>", about one item in five million): the only inputs on which the
+/// per-item reduction of `hash_to_state` does anything
+const NONCANONICAL_WORD_ITEMS: &[&str] = &[
+    "setsum-probe-2292161", "setsum-probe-3007804", "setsum-probe-3111643", "setsum-probe-12375394", "setsum-probe-13232553", "setsum-probe-16786702",
+    "setsum-probe-20729630", "setsum-probe-35755127", "setsum-probe-36098600", "setsum-probe-47665151", "setsum-probe-48249787", "setsum-probe-48560159",
+];
+
 fn gen_item(rng: &mut Rng) -> Vec<u8> {
+    if rng.chance(1, 12) {
+        return rng.pick(NONCANONICAL_WORD_ITEMS).as_bytes().to_vec();
+    }
     match rng.below(6) {
         0 => vec![],
         1 => vec![rng.below(3) as u8],
